@@ -143,6 +143,12 @@ def check_point(acc, Tspec, wspec, cur_units, i0v, imaxv, ratio, D, tag, speed_u
             'speed_unit': speed_unit}
     site = 'current-motor' if with_cur else 'plain-motor'
     motor = make_motor(Tspec, wspec, i0q, imaxq)
+    if tag == 'grid' and round(D * 20) % 4 == 1:
+        # the motor under test is a COPY (deep / shallow alternately) of a motor that was driven at full duty before
+        import copy
+        drive(motor, 0.0, speed_unit, 1, with_cur)
+        motor = copy.deepcopy(motor) if round(D * 20) % 8 == 1 else copy.copy(motor)
+        case['copied'] = True
     acc.transitions += 1
     try:
         Tq, Iq = drive(motor, w_val, speed_unit, D, with_cur)
